@@ -1,5 +1,6 @@
 import GoRedisModel.Proofs.LifeSys
 import GoRedisModel.Model.Lifecycle
+import GoRedisModel.Proofs.SourceFacts
 /-! # C15 — Start/Stop/Restart leave the server in the state the call promises
 
 `LS` (Model/LifeSys) is the lifecycle as a transition system whose actions are the four phases of Stop, Start,
@@ -97,5 +98,9 @@ def restartLate : List LAct :=
 
 example : (({} : LS).run restartLate).openL = [(2, false)] ∧ (({} : LS).run restartLate).conns.length = 1 ∧
     (({} : LS).run restartLate).phase = .idle := by decide
+
+/-- the control flow of Start/Stop/accept loops in the current source is the one the transition system models -/
+theorem C15_source_lifecycle :
+    lifecycleFactsOK = true := source_lifecycle_matches_transition_system
 
 end GoRedis
